@@ -207,3 +207,25 @@ def parseInterest (wire : Bytes) : Except PyErr (List Value × Ptrs) := do
               digestCovered := [pySlice value dstart value.length], digestValue := lastDigest comps })
 
 end Ndn.Packet
+
+namespace Ndn.Packet
+open Ndn Ndn.Codec
+
+/-- `params_sha256_checker`: the digest component equals `H` of the digest-covered bytes -/
+def paramsCheck (H : Bytes → Bytes) (p : Ptrs) : Bool :=
+  match p.digestValue with
+  | none => false
+  | some d => !p.digestCovered.isEmpty && !d.isEmpty && H (concatB p.digestCovered) == d
+
+/-- a signature scheme as the verifiers use it: they hash / verify the concatenation of the covered parts -/
+structure Scheme where
+  sign : Bytes → Bytes
+  verify : Bytes → Bytes → Bool
+
+/-- `verify_*(key, sig_ptrs)` -/
+def verifyPtrs (S : Scheme) (p : Ptrs) : Bool :=
+  match p.sigValue with
+  | none => false
+  | some s => S.verify (concatB p.sigCovered) s
+
+end Ndn.Packet
